@@ -7,9 +7,11 @@
 //               triangulation of the triangle / quad: all vertices used once, CCW, exact boundary, paired
 //               interior edges, area 1; Reindex (all edge-direction combinations) must map it injectively
 //               onto the expected global indices with the expected boundary cycle.
-//  2. MESHES    non-degenerate seeds of lib/alphabet.h x {as is, +2 property channels} x 9 tangent variants x
+//  2. MESHES    non-degenerate seeds of lib/alphabet.h x {as is, +2 property channels} (phase refine) and Boolean
+//               results of small solids (phase refine-bool) x 9 tangent variants x
 //               {Refine(1..4), RefineToLength(2,.7,.3), RefineToTolerance(.1,.01)}.
-//  3. SIMPLIFY  redundantly tessellated lattice solids x {Simplify, SetTolerance} x t in {0,1e-9,.01,.1}.
+//  3. SIMPLIFY  redundantly tessellated lattice solids (Refine(2|3|4|8).AsOriginal(), unions of face-adjacent
+//               boxes) x {Simplify, SetTolerance} x t in {0,1e-9,.01,.1}.
 // Oracles: lib/topo.h (closed oriented manifold, every vertex referenced), lib/solid.h (long double
 // winding number, point-triangle distance, volume, area).
 #include <array>
@@ -578,8 +580,9 @@ int main(int argc, char** argv) {
     base.push_back({"U", [Up] { return Manifold::Extrude(Up, 1); }});
     base.push_back({"U2", [Up] { return Manifold::Extrude(Up, 2); }});
     for (auto& b : base)
-      for (int n : {2, 3, 4}) {
-        if (n == 4 && !thorough) continue;
+      for (int n : {2, 3, 4, 8}) {
+        // n = 8 (facets of 1/8, just above t = 0.1) only on the unit box, the 2x1x1 box, L and U
+        if (n == 8 && b.name != "B000-111" && b.name != "B000-211" && b.name != "L" && b.name != "U") continue;
         auto mk = b.make;
         IN.push_back({b.name + "|Refine(" + std::to_string(n) + ")|AsOriginal", [mk, n] { return mk().Refine(n).AsOriginal(); }});
       }
